@@ -40,8 +40,8 @@ PROPS['C06'] = dict(
 )
 PROPS['C15'] = dict(
   level='proof',
-  verus=[dict(unit='peephole', min_functions=18), dict(unit='bytecode', min_functions=5), dict(unit='lines', min_functions=1), dict(unit='pipeline', min_functions=1), _findings_variant(['apply_stack_effects'])],
-  not_decided=['scanner, parser, resolver and Compiler totality; REPL continuation; only the compiler back half (peephole pass, label resolution, encoder) is under contract'],
+  verus=[dict(unit='peephole', min_functions=18), dict(unit='bytecode', min_functions=5), dict(unit='lines', min_functions=1), dict(unit='pipeline', min_functions=1), dict(unit='parserd', min_functions=5), _findings_variant(['apply_stack_effects'])],
+  not_decided=['scanner, resolver and Compiler totality and all of the parser except its loop-depth bookkeeping (parserd unit: loop_, break_, continue_, function, lambda, fun_body); REPL continuation'],
 )
 PROPS['C18'] = dict(
   level='proof',
